@@ -5,8 +5,8 @@ import RoaringModel.Inv
 # One call of a `RoaringTreemap` history (model and spec dispatchers for property C10)
 
 The alphabet holds the mutators of treemap/inherent.rs + iter.rs (`insert`, `remove`, `insert_range`,
-`remove_range`, `push`, `append`, `extend`, `clear`) and the queries (`contains`, `len`, `is_empty`, `min`, `max`,
-`rank`, `select`), which leave the value unchanged and are observed through their result.
+`remove_range`, `push`, `append`, `extend`, `clear`) and the queries (`contains`, `len`, `is_empty`, `is_full`, `min`,
+`max`, `rank`, `select`), which leave the value unchanged and are observed through their result.
 -/
 namespace Roaring
 
@@ -27,6 +27,7 @@ inductive Op64 where
   | max
   | rank (v : Nat)
   | select (n : Nat)
+  | isFull
 
 /-- what the call returns -/
 inductive Ret64 where
@@ -53,6 +54,7 @@ def Op64.Valid : Op64 → Prop
   | .max => True
   | .rank v => v < 18446744073709551616
   | .select n => n < 18446744073709551616
+  | .isFull => True
 
 /-- the model: `none` = a panic (`append` through the debug assertions / the explicit `panic!` of
     `push_unchecked`, `select` through its `.unwrap()`) -/
@@ -72,6 +74,7 @@ def Treemap.step (dbg : Bool) (t : Treemap) : Op64 → Option (Treemap × Ret64)
   | .max => some (t, .opt (Treemap.max? t))
   | .rank v => some (t, .count (Treemap.rank t v))
   | .select n => (Treemap.select t n).map fun r => (t, .opt r)
+  | .isFull => some (t, .bool (Treemap.isFull t))
 
 /-- the specification on a mathematical set of `u64` -/
 def Spec.step64 (s : List Nat) : Op64 → List Nat × Ret64
@@ -90,6 +93,7 @@ def Spec.step64 (s : List Nat) : Op64 → List Nat × Ret64
   | .max => (s, .opt (Spec.max? s))
   | .rank v => (s, .count (Spec.rank s v))
   | .select n => (s, .opt (Spec.select s n))
+  | .isFull => (s, .bool (Spec.isFull u64Max s))
 
 /-- run a history from a given value; `none` as soon as a step panics -/
 def Treemap.run (dbg : Bool) : Treemap → List Op64 → Option (Treemap × List Ret64)
